@@ -293,6 +293,9 @@ class Impl:
     def snapshot(self):
         out = [render_defaults(), ("-", "-|" + rfields([(k, rend(v, False)) for k, v in self.vars.items()]))]
         out += [render_obj(o) for o in self.objs]
+        prev = getattr(self, "_prev", [])
+        out = [prev[i] if i < len(prev) and prev[i] == x else x for i, x in enumerate(out)]   # share unchanged strings
+        self._prev = out
         return out
 
     def cleanup(self):
@@ -997,29 +1000,32 @@ def run(ctx):
     witness_alias_args(ctx)
     # 1. histories
     nh = ctx.budget(260, 4000)
-    hists = []
-    for h in range(nh):
-        nops = int(rng.integers(6, 23))
-        ops, stats, snaps, im, info = gen_history(rng, h, nops)
-        im.cleanup()
-        hists.append((ops, stats, snaps, info))
-        case = dict(ops=ops)
-        direct_oracles(ctx, ops, stats, snaps, info, case)
-        if not fresh_objects_pristine(ctx, case):
-            restore_defaults()
-        ctx.count("histories")
-        for op in ops:
-            ctx.count("op:" + op[0])
-        ctx.count("ops_raising", sum(1 for x in stats if x == "err"))
-        ctx.count("history_with_unsafe_aliasing" if info["unsafe"] else "history_safe")
-    outs = run_driver([hist_line(ops) for ops, _, _, _ in hists], exe=EXE)
-    for (ops, stats, snaps, info), line in zip(hists, outs):
-        case = dict(ops=ops)
-        ans = parse_answer(line, len(ops))
-        ok = compare_history(ctx, ops, stats, snaps, ans, case)
-        ctx.traces += 1
-        ctx.case(ops, nontrivial=info["nontrivial"],
-                 sample=dict(n_ops=len(ops), ops=[enc_op(o)[:120] for o in ops[:8]], statuses=stats[:8], agree=ok, tableOK=ans[1]))
+    done = 0
+    while done < nh:
+        hists = []
+        for h in range(done, min(done + 130, nh)):
+            nops = int(rng.integers(6, 23))
+            ops, stats, snaps, im, info = gen_history(rng, h, nops)
+            im.cleanup()
+            hists.append((ops, stats, snaps, info))
+            case = dict(ops=ops)
+            direct_oracles(ctx, ops, stats, snaps, info, case)
+            if not fresh_objects_pristine(ctx, case):
+                restore_defaults()
+            ctx.count("histories")
+            for op in ops:
+                ctx.count("op:" + op[0])
+            ctx.count("ops_raising", sum(1 for x in stats if x == "err"))
+            ctx.count("history_with_unsafe_aliasing" if info["unsafe"] else "history_safe")
+        done += len(hists)
+        outs = run_driver([hist_line(ops) for ops, _, _, _ in hists], exe=EXE)
+        for (ops, stats, snaps, info), line in zip(hists, outs):
+            case = dict(ops=ops)
+            ans = parse_answer(line, len(ops))
+            ok = compare_history(ctx, ops, stats, snaps, ans, case)
+            ctx.traces += 1
+            ctx.case(ops, nontrivial=info["nontrivial"],
+                     sample=dict(n_ops=len(ops), ops=[enc_op(o)[:120] for o in ops[:8]], statuses=stats[:8], agree=ok, tableOK=ans[1]))
     # 2. probes on the implementation
     probe_explicit_args(ctx, rng)
     probe_attr_dict_copies(ctx, rng, ctx.budget(40, 400))
